@@ -77,21 +77,35 @@ static void abs_path(const char *p, char *out, size_t n) {
   snprintf(out, n, "%s/%s", cwd, p);
 }
 
+/* escape whitespace, control bytes and '%' so that a log / gate line stays one space-separated record */
+static void esc(const char *in, char *out, size_t n) {
+  size_t j = 0;
+  if (!in || !*in) { snprintf(out, n, "-"); return; }
+  for (size_t i = 0; in[i] && j + 4 < n; i++) {
+    unsigned char c = (unsigned char)in[i];
+    if (c <= 0x20 || c == '%' || c == 0x7f) j += snprintf(out + j, n - j, "%%%02X", c);
+    else out[j++] = (char)c;
+  }
+  out[j] = 0;
+}
+
 static int considered(const char *a, const char *b) {
   if (!watch) return 1;
   return (a && strstr(a, watch)) || (b && strstr(b, watch));
 }
 
 /* returns 'g' normally; in gate mode the controller's answer */
-static int announce(int mutating, const char *call, const char *a, const char *b, const char *extra) {
-  char buf[8192];
+static int announce(int mutating, const char *call, const char *a0, const char *b0, const char *extra) {
+  char buf[20000], a[8192], b[8192];
   int ans = 'g';
+  esc(a0, a, sizeof a);
+  esc(b0, b, sizeof b);
   pthread_mutex_lock(&mu);
   int n_all = ++all_count;
   int n_mut = mutating ? ++mut_count : mut_count;
   if (logf) {
     int n = snprintf(buf, sizeof buf, "%d %d %c %s %s %s %s\n", getpid(), mutating ? n_mut : n_all, mutating ? 'M' : 'R', call,
-                     a && *a ? a : "-", b && *b ? b : "-", extra ? extra : "-");
+                     a, b, extra ? extra : "-");
     int fd = real_open64(logf, O_WRONLY | O_APPEND | O_CREAT, 0644);
     if (fd >= 0) { ssize_t r = real_write(fd, buf, n); (void)r; real_close(fd); }
   }
@@ -104,8 +118,7 @@ static int announce(int mutating, const char *call, const char *a, const char *b
       if (sock_fd < 0 || connect(sock_fd, (struct sockaddr *)&sa, sizeof sa) != 0) sock_fd = -1;
     }
     if (sock_fd >= 0) {
-      int n = snprintf(buf, sizeof buf, "%s %c %s %s %s %s\n", ident, mutating ? 'M' : 'R', call, a && *a ? a : "-",
-                       b && *b ? b : "-", extra ? extra : "-");
+      int n = snprintf(buf, sizeof buf, "%s %c %s %s %s %s\n", ident, mutating ? 'M' : 'R', call, a, b, extra ? extra : "-");
       if (real_write(sock_fd, buf, n) == n) {
         char c = 'g';
         ssize_t r = real_read(sock_fd, &c, 1);
